@@ -12,5 +12,6 @@ RC=$?
 cp /verif/.work/evidence_$ID.bak /verif/evidence/$ID.json 2>/dev/null
 git -C /repo checkout -- .
 echo "seed=$P check=$ID tier=$TIER exit=$RC"
-grep -E "^VIOLATION|^KNOWN|TOOL-ERROR" /verif/.work/seedtest_$ID.log | cut -c1-220 | head -8
+grep -E "^VIOLATION|TOOL-ERROR" /verif/.work/seedtest_$ID.log | cut -c1-220 | head -8
+grep -cE "^KNOWN" /verif/.work/seedtest_$ID.log | sed 's/^/known_findings_printed=/'
 exit 0
